@@ -295,9 +295,10 @@ Proof. intros nu f H Hl Hq. apply fok_mid in H. rewrite Hq in H. destruct (f_lab
 Lemma fok_rep_quant : forall nu f, field_ok nu f = true -> f_label f = LRepeated -> f_quant f = QCount.
 Proof. intros nu f H Hl. apply fok_mid in H. rewrite Hl in H. destruct (f_quant f); try discriminate H. reflexivity. Qed.
 
-(* ---------- a singular member outside any oneof, optional or with implicit presence *)
+(* ---------- a singular member outside any oneof: optional, with implicit presence, or a required sub-message *)
 Lemma merge_sone_sim : forall recv rech nu B1 B2 f eh ev lh lv xv yv s,
-  field_ok nu f = true -> f_label f = LOptional \/ f_label f = LNone ->
+  field_ok nu f = true ->
+  f_label f = LOptional \/ f_label f = LNone \/ (f_label f = LRequired /\ f_type f = TMessage) ->
   slot_shape shp nu f (SOne eh ev) = true -> slot_shape shp nu f (SOne lh lv) = true ->
   gcell (gd B1) f false ev = true -> gcell (gd B2) f false lv = true ->
   mrelv recv rech lv -> sim_val ev xv -> sim_val lv yv ->
@@ -307,7 +308,7 @@ Proof.
   intros recv rech nu B1 B2 f eh ev lh lv xv yv s Hfok Hlab He Hl Gev Glv HQ Sx Sy.
   destruct (sone_shape _ _ _ _ _ Hl) as (Hlr & Hlq & Hlo & Hlc).
   destruct (sone_shape _ _ _ _ _ He) as (_ & _ & _ & Hec).
-  assert (Hnr : f_label f <> LRepeated) by (destruct Hlab as [H|H]; rewrite H; discriminate).
+  assert (Hnr : f_label f <> LRepeated) by (destruct Hlab as [H|[H|[H _]]]; rewrite H; discriminate).
   assert (Hgoal : exists sv ecv lcv s',
     match f_type f with
     | TMessage =>
@@ -329,7 +330,8 @@ Proof.
         end
     end = Ok sv /\
     h_merge_cell rech f false eh xv lh yv s = (true, ecv, lcv, s') /\ sim_slot sv (HOne (fst lcv) (snd lcv))).
-  2:{ unfold merge_slot. destruct Hlab as [EL|EL]; rewrite EL; exact Hgoal. }
+  2:{ unfold merge_slot. destruct Hlab as [EL|[EL|[EL ET]]]; rewrite EL; [exact Hgoal | exact Hgoal |].
+      rewrite ET in Hgoal |- *. exact Hgoal. }
   destruct (f_type f) eqn:ET.
   15:{ (* string *)
     assert (EQ : f_quant f = QNone) by (apply (fok_ptr_quant _ _ Hfok); [exact Hnr | exact Hlq | auto]).
@@ -402,7 +404,7 @@ Proof.
     destruct hes as [eh' xv|?|?]; try contradiction. destruct Se as [<- Sx].
     cbn [gslot] in Ge, Gl. apply andb_true_iff in Ge, Gl. destruct Ge as [Gev _], Gl as [Glv _].
     cbn [slot_all] in HQ.
-    assert (Hopt : f_label f = LOptional \/ f_label f = LNone ->
+    assert (Hopt : f_label f = LOptional \/ f_label f = LNone \/ (f_label f = LRequired /\ f_type f = TMessage) ->
       exists sv hes' hls' s', merge_slot recv f (SOne eh ev) (SOne lh lv) = Ok sv /\
         (doA r <- h_merge_cell rech f false eh xv lh yv;
          let '(ok, (eh', ev'), (lh', lv')) := r in
@@ -413,10 +415,13 @@ Proof.
       exists sv, (HOne ec' ev'), (HOne lc' lv'), s'. split; [exact Hm|]. split; [|exact Ss].
       unfold bnd. rewrite Hh. reflexivity. }
     unfold h_merge_slot. destruct (f_label f) eqn:EL; try discriminate Hlr.
-    + exists (SOne lh lv), (HOne eh xv), (HOne lh yv), s. unfold merge_slot. rewrite EL.
-      split; [reflexivity|]. split; [reflexivity|]. split; [reflexivity | exact Sy].
+    + (* required: a sub-message is merged, anything else is left alone *)
+      destruct (f_type f) eqn:ET;
+        try (exists (SOne lh lv), (HOne eh xv), (HOne lh yv), s; unfold merge_slot; rewrite EL, ET;
+             split; [reflexivity|]; split; [reflexivity|]; split; [reflexivity | exact Sy]).
+      cbn [label_eqb ftype_eqb orb andb]. apply Hopt. right. right. split; reflexivity.
     + apply Hopt. left. reflexivity.
-    + apply Hopt. right. reflexivity.
+    + apply Hopt. right. left. reflexivity.
   - (* repeated member *)
     pose proof (srep_shape _ _ _ _ _ _ Hl) as Hlr.
     assert (EL : f_label f = LRepeated) by (destruct (f_label f); try discriminate Hlr; reflexivity).
